@@ -78,23 +78,41 @@ func eq(a, b lines) bool {
 	return true
 }
 
-func aggregate(runs []run, order []int) map[string]lines {
+// aggregate feeds the runs to one accumulator in the given order, the way the test step does: every run is its
+// own TestCoverage whose Tests[label] is the SAME map as its Files (as the result parsers build it).
+// It returns the accumulator and the run objects (to check afterwards that they were not modified).
+func aggregate(runs []run, labels []string, order []int) (*core.TestCoverage, []*core.TestCoverage) {
 	acc := core.NewTestCoverage()
-	for _, i := range order {
+	objs := make([]*core.TestCoverage, len(runs))
+	for i := range runs {
 		cov := core.NewTestCoverage()
 		for k, v := range runs[i] {
 			cov.Files[k] = append(lines{}, v...)
 		}
-		acc.Aggregate(cov)
+		if labels != nil {
+			cov.Tests[core.ParseBuildLabel(labels[i], "")] = cov.Files
+		}
+		objs[i] = cov
 	}
-	return acc.Files
+	for _, i := range order {
+		acc.Aggregate(objs[i])
+	}
+	return acc, objs
+}
+
+func testsOf(acc *core.TestCoverage) map[string]map[string][]int {
+	out := map[string]map[string][]int{}
+	for l, m := range acc.Tests {
+		out[l.String()] = normalise(m)
+	}
+	return out
 }
 
 func main() {
 	lib.Main("C27", func(c *lib.Ctx) {
 		c.Model("From PlzV Require Import Model.C27.", "C27.case", "C27.check")
 		c.Rule("exhaustive pairs of coverage vectors up to a length bound over the 4 line states through core.MergeCoverageLines; " +
-			"random multisets of runs (1-5 runs, 1-3 files from a pool of 4 names, vectors of length 0-6) through TestCoverage.Aggregate in all (<=4 runs) or 24 sampled orders. " +
+			"random multisets of labelled runs (1-5 runs, 1-3 files from a pool of 4 names, vectors of length 0-6, one third with a repeated test label; each run object's Tests[label] aliases its Files map as the result parsers build it) through TestCoverage.Aggregate in all (<=4 runs) or 24 sampled orders, checking order independence, best state, idempotence, the per-test breakdown and that merged-in objects are not modified. " +
 			"distinct = distinct inputs; non-trivial = both vectors non-empty and different (pairs) or >=2 runs sharing a file (multisets)")
 
 		// --- 1. pairs, exhaustive: correspondence up to lenCorr, oracle laws up to lenOracle
@@ -126,16 +144,29 @@ func main() {
 		c.Exhaustive(true)
 		c.Note("pairs: exhaustive over vectors of length <= %d (oracle laws on the implementation) and <= %d (model correspondence)", lenOracle, lenCorr)
 
-		// --- 2. multisets of runs through Aggregate, in several orders
+		// --- 2. multisets of labelled runs through Aggregate, in several orders
 		names := []string{"src/a.go", "src/b.go", "c.py", "d/e.java"}
+		labelPool := []string{"//p:t1", "//p:t2", "//q:t", "//q/r:u_test", "//s:v"}
 		nsets := c.Scale(150, 4000)
 		for i := 0; i < nsets; i++ {
 			r := c.Rng.Fork()
 			nruns := r.Range(1, 5)
 			runs := make([]run, nruns)
+			labels := make([]string, nruns)
+			// one third of the multisets repeat a label (retries / several runs of one test)
+			repeat := r.Chance(1, 3)
+			perm := pickSubset(r, len(labelPool), len(labelPool))
+			lib.Shuffle(r, perm)
+			distinctLabels := true
 			shared := false
 			seen := map[string]int{}
 			for j := range runs {
+				if repeat && j > 0 && r.Chance(1, 2) {
+					labels[j] = labels[r.Intn(j)]
+					distinctLabels = false
+				} else {
+					labels[j] = labelPool[perm[j]]
+				}
 				runs[j] = run{}
 				for _, idx := range pickSubset(r, len(names), r.Range(1, 3)) {
 					l := make(lines, r.Range(0, 6))
@@ -150,7 +181,7 @@ func main() {
 				}
 			}
 			c.HistN("runs_per_multiset", nruns)
-			// orders
+			c.Hist("labels", map[bool]string{true: "distinct", false: "repeated"}[distinctLabels])
 			orders := [][]int{}
 			if nruns <= 4 {
 				lib.Perms(nruns, func(p []int) { orders = append(orders, append([]int{}, p...)) })
@@ -164,25 +195,76 @@ func main() {
 					orders = append(orders, p)
 				}
 			}
-			first := aggregate(runs, orders[0])
-			for _, o := range orders[1:] {
+			in := func(o1, o2 []int) map[string]any {
+				return map[string]any{"runs": jsRuns(runs), "labels": labels, "order1": o1, "order2": o2}
+			}
+			firstAcc, _ := aggregate(runs, labels, orders[0])
+			first := firstAcc.Files
+			for _, o := range orders {
 				c.Oracle()
-				got := aggregate(runs, o)
-				if !reflect.DeepEqual(normalise(first), normalise(got)) {
-					c.Fail("aggregate-order-dependent", fmt.Sprintf("order %v gives %v, order %v gives %v", orders[0], first, o, got),
-						map[string]any{"runs": jsRuns(runs), "order1": orders[0], "order2": o})
+				acc, objs := aggregate(runs, labels, o)
+				if !reflect.DeepEqual(normalise(first), normalise(acc.Files)) {
+					c.Fail("aggregate-order-dependent", fmt.Sprintf("order %v gives %v, order %v gives %v", orders[0], first, o, acc.Files), in(orders[0], o))
+				}
+				// best state per line, computed independently
+				want := map[string]lines{}
+				for _, ru := range runs {
+					for f, l := range ru {
+						want[f] = maxLines(want[f], l)
+					}
+				}
+				if !reflect.DeepEqual(normalise(want), normalise(acc.Files)) {
+					c.Fail("aggregate-not-best", fmt.Sprintf("order %v gives %v, the best state per line is %v", o, acc.Files, want), in(o, o))
+				}
+				// the merged-in run objects must not be modified
+				for j, obj := range objs {
+					if !reflect.DeepEqual(normalise(obj.Files), jsRun(runs[j])) {
+						c.Fail("aggregate-modifies-its-input", fmt.Sprintf("after aggregating in order %v, run %d holds %v instead of %v", o, j, obj.Files, runs[j]), in(o, o))
+					}
+				}
+				// with one run per test label the per-test breakdown holds exactly what each test reported
+				if distinctLabels {
+					ts := testsOf(acc)
+					for j := range runs {
+						if !reflect.DeepEqual(ts[labels[j]], jsRun(runs[j])) {
+							c.Fail("per-test-coverage-wrong", fmt.Sprintf("after order %v the entry of test %s is %v, the test reported %v", o, labels[j], ts[labels[j]], runs[j]), in(o, o))
+						}
+					}
+					if len(ts) != len(runs) {
+						c.Fail("per-test-coverage-wrong", fmt.Sprintf("after order %v there are %d per-test entries for %d tests", o, len(ts), len(runs)), in(o, o))
+					}
 				}
 			}
-			// correspondence: one order (the last sampled), the model gets the runs in that order with each
-			// run's files in sorted order (any order is allowed by the theorem)
+			// aggregating everything a second time changes nothing
+			{
+				c.Oracle()
+				acc, objs := aggregate(runs, labels, orders[0])
+				for _, idx := range orders[0] {
+					acc.Aggregate(objs[idx])
+				}
+				if !reflect.DeepEqual(normalise(first), normalise(acc.Files)) {
+					c.Fail("aggregate-not-idempotent", fmt.Sprintf("aggregating the same runs twice gives %v instead of %v", acc.Files, first), in(orders[0], orders[0]))
+				}
+			}
+			// correspondence: the last sampled order; each run's files listed in sorted order (any order is allowed by the theorem)
 			o := orders[len(orders)-1]
-			got := aggregate(runs, o)
+			acc, _ := aggregate(runs, labels, o)
 			coqRuns := []string{}
 			for _, idx := range o {
-				coqRuns = append(coqRuns, coqRun(runs[idx], lib.SortedKeys(runs[idx])))
+				coqRuns = append(coqRuns, lib.Pair(lib.Str(labels[idx]), coqRun(runs[idx], lib.SortedKeys(runs[idx]))))
 			}
-			c.Case(lib.App("CAgg", lib.List(coqRuns), coqRun(got, lib.SortedKeys(got))),
-				map[string]any{"runs": jsRuns(runs), "order": o, "files": jsRun(got)}, fmt.Sprint("a", jsRuns(runs), o), shared && nruns >= 2)
+			ts := testsOf(acc)
+			coqTests := []string{}
+			for _, l := range lib.SortedKeys(ts) {
+				m := run{}
+				for f, v := range acc.Tests[core.ParseBuildLabel(l, "")] {
+					m[f] = v
+				}
+				coqTests = append(coqTests, lib.Pair(lib.Str(l), coqRun(m, lib.SortedKeys(m))))
+			}
+			c.Case(lib.App("CAggT", lib.List(coqRuns), coqRun(acc.Files, lib.SortedKeys(acc.Files)), lib.List(coqTests)),
+				map[string]any{"runs": jsRuns(runs), "labels": labels, "order": o, "files": jsRun(acc.Files), "tests": ts},
+				fmt.Sprint("a", jsRuns(runs), labels, o), shared && nruns >= 2)
 		}
 	})
 }
